@@ -188,6 +188,7 @@ func (w *world) ruleRef(a *agg, stats *counters) {
 			w.collectKeyShapes(x, r, tables, &shapes)
 			w.checkEmittedIndices(a, rg, x, r, fname)
 			w.checkIndexProvenance(a, rg, x, r, fname, lists)
+			w.checkPrimitiveMode(a, x, r, fn, fname)
 			var caps []capture
 			add := func(av AV, rule, sink string, in ssa.Instruction) {
 				walkNums(st, av, 0, func(p Poly) {
@@ -421,6 +422,7 @@ func (w *world) ruleRef(a *agg, stats *counters) {
 	w.c.R.Floor("DEDUP-1", 9)
 	w.c.R.Floor("DEDUP-2", 2)
 	w.c.R.Floor("REF-2", 8)
+	w.c.R.Floor("MODE-1", 1)
 }
 
 func (w *world) readsLenOfWriterField(fn *ssa.Function) bool {
